@@ -635,3 +635,32 @@ func genSrv(r *lib.Rng, tier string) (js []job) {
 	}
 	return js
 }
+
+// histories of the SCION client (packet authentication and NTS both enabled): the shapes of the
+// IP client; actions on the NTS payload alone become lost replies there
+func genSCIONHistories(r *lib.Rng, tier string) (scripts [][]step) {
+	n := 60
+	if tier == "thorough" {
+		n = 600
+	}
+	// loss-free runs of 10 and more exchanges; every number of consecutive losses
+	for i := 0; i < 3; i++ {
+		var s []step
+		for j := int(r.Range(10, 14)); j > 0; j-- {
+			s = append(s, step{action: actDeliver})
+		}
+		scripts = append(scripts, s)
+	}
+	for k := 1; k <= 9; k++ {
+		s := []step{{action: actDeliver}}
+		for i := 0; i < k; i++ {
+			s = append(s, step{action: lib.Pick(r, actDropReq, actDropReply)})
+		}
+		s = append(s, step{action: actDeliver}, step{action: actDeliver}, step{action: actDeliver})
+		scripts = append(scripts, s)
+	}
+	for i := 0; i < n; i++ {
+		scripts = append(scripts, genScript(r, lib.Pick(r, 0, 0, 1, 1, 2, 3, 4, 5, 8, 9, 11, 12)))
+	}
+	return scripts
+}
